@@ -1001,7 +1001,7 @@ def r15_10_duplicates_leave_the_node_alone(ctx, rid='R15.10'):
                         return True
             return False
         raises = [x for x in f.raises() if dup(x)]
-        rets = [x for x in f.returns() if x.value is None and dup(x)]
+        rets = [x for x in f.returns() if (x.value is None or (isinstance(x.value, ast.Constant) and x.value.value is None)) and dup(x)]
         strict_raise = [x for x in raises if any(t == 'strict' for t in f.guard_texts(x))]
         r.check(bool(strict_raise), '%s: a duplicate key raises under strict' % name, f.key('duplicate:no-strict-raise'), f.loc(),
                 '%s never raises for a duplicate key in strict mode' % name)
